@@ -168,3 +168,108 @@ pub mod w20 {
     use super::*;
     crate::harnesses!(L20; utf8; unwind 22; c13_t14_k12, c13_t14_k16, c13_t14_k20, c13_t12_k20, c13_t24a, c13_t19, c13_t21, c13_t05, c13_t05_trunc);
 }
+
+
+// ---- range wiring of the variable-length texts (types 12, 14; destination of type 5) for every payload length up to the
+// 1008-bit maximum: the number of characters handed to / produced by the text decoder is floor(bits available / 6), capped by
+// the field width.  Payload bits all ones: every 6-bit group is '?', which no trimming removes, so that the decoded length is
+// the character count of the range - under Kani through len_text_stub, natively through the real decoder.
+fn expect_text_len(len: usize, k: usize, what: &str) {
+    assert!(len == k, "C13 {}: the text covers exactly the characters of its bit range", what);
+}
+
+fn c13w_t12_at(n: usize) {
+    use ais::messages::addressed_safety_related::AddressedSafetyRelatedMessage;
+    let buf = [0xffu8; 126];
+    let d = &buf[..n];
+    let k = if 8 * n >= 72 { (8 * n - 72) / 6 } else { 0 };
+    match AddressedSafetyRelatedMessage::parse(d) {
+        Ok(m) => {
+            assert!(k >= 1, "C13 t12: no text character, nothing to decode");
+            expect_text_len(m.text.len(), k, "t12");
+        }
+        Err(_) => {
+            #[cfg(any(feature = "std", feature = "alloc"))]
+            assert!(k < 1, "C13 t12: a payload with at least one text character decodes");
+            #[cfg(all(not(feature = "std"), not(feature = "alloc")))]
+            assert!(k < 1 || k > 20, "C13 t12: a text within the capacity decodes");
+        }
+    }
+    crate::cover!(n > 0, "the end of the harness is reached");
+}
+
+fn c13w_t14_at(n: usize) {
+    use ais::messages::safety_related_broadcast::SafetyRelatedBroadcastMessage;
+    let buf = [0xffu8; 126];
+    let d = &buf[..n];
+    let k = if 8 * n >= 40 { (8 * n - 40) / 6 } else { 0 };
+    match SafetyRelatedBroadcastMessage::parse(d) {
+        Ok(m) => {
+            assert!(k >= 1, "C13 t14: no text character, nothing to decode");
+            expect_text_len(m.text.len(), k, "t14");
+        }
+        Err(_) => {
+            #[cfg(any(feature = "std", feature = "alloc"))]
+            assert!(k < 1, "C13 t14: a payload with at least one text character decodes");
+            #[cfg(all(not(feature = "std"), not(feature = "alloc")))]
+            assert!(k < 1 || k > 20, "C13 t14: a text within the capacity decodes");
+        }
+    }
+    crate::cover!(n > 0, "the end of the harness is reached");
+}
+
+/// concrete payload lengths (the length decides the character count): the 1008-bit maximum and the two lengths below it (one per
+/// alignment of the last character), a mid-size text, and the lengths around the no-allocator capacity of 20 characters
+pub fn c13w_t12_n126<N: Nd>(_nd: &mut N) { c13w_t12_at(126) }
+pub fn c13w_t12_n125<N: Nd>(_nd: &mut N) { c13w_t12_at(125) }
+pub fn c13w_t12_n124<N: Nd>(_nd: &mut N) { c13w_t12_at(124) }
+pub fn c13w_t12_n066<N: Nd>(_nd: &mut N) { c13w_t12_at(66) }
+pub fn c13w_t12_n024<N: Nd>(_nd: &mut N) { c13w_t12_at(24) }
+pub fn c13w_t12_n025<N: Nd>(_nd: &mut N) { c13w_t12_at(25) }
+pub fn c13w_t14_n126<N: Nd>(_nd: &mut N) { c13w_t14_at(126) }
+pub fn c13w_t14_n125<N: Nd>(_nd: &mut N) { c13w_t14_at(125) }
+pub fn c13w_t14_n124<N: Nd>(_nd: &mut N) { c13w_t14_at(124) }
+pub fn c13w_t14_n066<N: Nd>(_nd: &mut N) { c13w_t14_at(66) }
+pub fn c13w_t14_n020<N: Nd>(_nd: &mut N) { c13w_t14_at(20) }
+pub fn c13w_t14_n021<N: Nd>(_nd: &mut N) { c13w_t14_at(21) }
+
+fn c13w_t05_at(n: usize) {
+    use ais::messages::static_and_voyage_related_data::StaticAndVoyageRelatedData;
+    let buf = [0xffu8; 55];
+    let d = &buf[..n];
+    match StaticAndVoyageRelatedData::parse(d) {
+        Err(_) => assert!(n < 38, "C13 t5: a payload holding everything up to the draught decodes"),
+        Ok(m) => {
+            assert!(n >= 38, "C13 t5: a payload cut before the destination is rejected");
+            let rest = 8 * n - 302;
+            let k = (if rest > 120 { 120 } else { rest }) / 6;
+            expect_text_len(m.callsign.len(), 7, "t5 call sign");
+            expect_text_len(m.vessel_name.len(), 20, "t5 vessel name");
+            expect_text_len(m.destination.len(), k, "t5 destination");
+        }
+    }
+    crate::cover!(n > 0, "the end of the harness is reached");
+}
+/// the truncated destination of type 5: every payload length at which the payload ends exactly on a character boundary
+/// (40, 43, 46, 49, 52), their neighbours, the shortest accepted length and the full length
+pub fn c13w_t05_n037<N: Nd>(_nd: &mut N) { c13w_t05_at(37) }
+pub fn c13w_t05_n038<N: Nd>(_nd: &mut N) { c13w_t05_at(38) }
+pub fn c13w_t05_n040<N: Nd>(_nd: &mut N) { c13w_t05_at(40) }
+pub fn c13w_t05_n041<N: Nd>(_nd: &mut N) { c13w_t05_at(41) }
+pub fn c13w_t05_n043<N: Nd>(_nd: &mut N) { c13w_t05_at(43) }
+pub fn c13w_t05_n046<N: Nd>(_nd: &mut N) { c13w_t05_at(46) }
+pub fn c13w_t05_n049<N: Nd>(_nd: &mut N) { c13w_t05_at(49) }
+pub fn c13w_t05_n052<N: Nd>(_nd: &mut N) { c13w_t05_at(52) }
+pub fn c13w_t05_n053<N: Nd>(_nd: &mut N) { c13w_t05_at(53) }
+pub fn c13w_t05_n055<N: Nd>(_nd: &mut N) { c13w_t05_at(55) }
+
+pub mod ww {
+    use super::*;
+    crate::harnesses!(LW; lentext; unwind 163; c13w_t12_n126, c13w_t12_n125, c13w_t12_n124, c13w_t12_n066, c13w_t12_n024, c13w_t12_n025,
+        c13w_t14_n126, c13w_t14_n125, c13w_t14_n124, c13w_t14_n066, c13w_t14_n020, c13w_t14_n021);
+}
+pub mod ww5 {
+    use super::*;
+    crate::harnesses!(LW5; lentext; unwind 23; c13w_t05_n037, c13w_t05_n038, c13w_t05_n040, c13w_t05_n041, c13w_t05_n043, c13w_t05_n046,
+        c13w_t05_n049, c13w_t05_n052, c13w_t05_n053, c13w_t05_n055);
+}
